@@ -233,3 +233,40 @@ def classify_pre_flags(ln, out):
     cls = [c for _, c, _, _ in res]
     if len(set(cls)) > 1 and any(m & 1 for _, _, _, m in res): ks.append("flag-across-clusters")
     return ks
+
+
+def promoted_shapings(dis, limit):
+    """A `hangul prem` request on which the crate and the model disagree is a candidate failing input of the property: its
+    text on the font its support spec describes becomes a shape() request (script Hang, LTR, the request's level when it is 0
+    or 1, else 1; input clusters kept when strictly increasing, else renumbered) for the break-safety verifier."""
+    out = []
+    for i, d in enumerate(sorted(dis, key=lambda d: len(d["request"]))[:limit]):
+        t = d["request"].split()
+        level, nodc, spec = int(t[2]), int(t[3]), t[4]
+        recs = [] if t[5] == "-" else [tuple(int(x) for x in e.split(":")) for e in t[5].split(",")]
+        cps = [c for c, _ in recs]; cl = [k for _, k in recs]
+        if len(cps) < 2 or any(c < 0x20 or 0xD800 <= c <= 0xDFFF for c in cps):
+            continue
+        if not all(a < b for a, b in zip(cl, cl[1:])):
+            cl = list(range(len(cps)))
+        fid = f"HP{i}"
+        c = F.SynthCase()
+        c.name, c.font, c.index, c.text = fid, f"hangul-spec:{spec}", 0, ""
+        c.dir, c.script, c.lang, c.flags, c.level, c.feats = None, "Hang", None, 0, 0, []
+        c.pre, c.post, c.extra, c.opts = "", "", [], ""
+        g = {"fid": fid, "reg": f"hangul font {fid} {spec}", "cases": [c], "alphabet": [], "aat": False, "native": "l",
+             "from_correspondence": d}
+        s = F.Shaping()
+        s.g, s.case = g, c
+        s.text = "".join(chr(x) for x in cps)
+        s.clusters = cl
+        s.req_dir = s.dir = "l"
+        s.script = "Hang"
+        s.flags = 3 | (16 if nodc else 0)
+        s.level = level if level < 2 else 1
+        s.extra = []
+        s.pre, s.post = "", ""
+        s.subset = None
+        s.line = None
+        out.append(s)
+    return out
